@@ -783,7 +783,7 @@ class Client(ClientLike):
             data = get_msg_cls(header.msg_type)()
         except UnknownMessageType as e:
             mt = header.msg_type
-            raw = self._sock.recv(header.num_data_bytes, socket.MSG_WAITALL)
+            raw = self._drain(header.num_data_bytes)
             raise UnknownMessageType(
                 f"No message definition found for MT={mt}", header, raw
             )
@@ -793,7 +793,7 @@ class Client(ClientLike):
             type_size = data.size
 
         if type_size != header.num_data_bytes:
-            _ = self._sock.recv(header.num_data_bytes, socket.MSG_WAITALL)
+            _ = self._drain(header.num_data_bytes)
             raise InvalidMessageDefinition(
                 f"Received message header indicating a message data size ({header.num_data_bytes}) that does not match the expected size ({type_size}) of message type {data.type_name}. Message definitions may be out of sync across systems."
             )
@@ -801,7 +801,7 @@ class Client(ClientLike):
         # Note: Ignore the sync check if header.version is not filled in
         # This can removed once all clients support this field.
         if sync_check and header.version != 0 and header.version != data.type_hash:
-            _ = self._sock.recv(header.num_data_bytes, socket.MSG_WAITALL)
+            _ = self._drain(header.num_data_bytes)
             raise InvalidMessageDefinition(
                 f"Received message header indicating a message version that does not match the expected version of message type {data.type_name}. Message definitions may be out of sync across systems."
             )
@@ -818,6 +818,14 @@ class Client(ClientLike):
                 raise ConnectionLost from e
 
         return Message(header, data)
+
+    def _drain(self, nbytes: int) -> bytes:
+        """Consume the data section of a frame that cannot be decoded"""
+        try:
+            return self._sock.recv(nbytes, socket.MSG_WAITALL)
+        except ConnectionError as e:
+            self._connected = False
+            raise ConnectionLost from e
 
     def _wait_for_acknowledgement(self, timeout: float = 3) -> Message:
         """Wait for acknowledgement from message manager module
